@@ -377,7 +377,7 @@ class Frame:
 class Executor:
     """One path. Create through Explorer.paths()."""
 
-    def __init__(self, prog, harness, prefix, timeout_ms=20000):
+    def __init__(self, prog, harness, prefix, timeout_ms=90000):
         self.prog = prog
         self.h = harness
         self.prefix = list(prefix)
